@@ -30,9 +30,9 @@ pub const TEXT_SHAPES: [&str; 12] = [
 /// long before 8 MiB would overflow, whatever the frame size of the build profile.
 pub const SMALL_STACK_APIS: [&str; 3] = ["iter@256k", "peeknext@256k", "pull+loader@256k"];
 pub const TREE_SHAPES: [&str; 7] = ["tree-seq", "tree-mapval", "tree-mapkey", "tree-seq-mlstr", "tree-mapval-mlstr", "tree-seq-2leaf", "tree-seq-mapleaf"];
-pub const TEXT_APIS: [&str; 9] = [
+pub const TEXT_APIS: [&str; 11] = [
     "iter", "peeknext", "load", "lfs:Yaml", "lfs:YamlOwned", "lfs:MarkedYaml", "lfs:MarkedYamlOwned",
-    "decode", "decode:utf16le",
+    "decode", "decode:utf16le", "lazy:Yaml", "lazy:MarkedYamlOwned",
 ];
 pub const TREE_APIS: [&str; 7] = ["drop", "clone", "eq", "hash", "emit", "emit:multiline", "emit:noncompact"];
 /// Wide (long, not deep) documents and shallow-but-closed flow nests: nothing may recurse per
@@ -550,6 +550,34 @@ fn scenario(shape: &str, depth: usize, api: &str) -> String {
                 Err(e) => format!("ERR {e} (after {} events)", s.0),
             }
         }
+        "lazy:Yaml" | "lazy:MarkedYamlOwned" => {
+            // deferred resolution: load with early_parse(false), then resolve the whole tree
+            macro_rules! lazy {
+                ($t:ty, $resolve:expr) => {{
+                    let mut p = Parser::new_from_str(&text);
+                    let mut loader: saphyr::YamlLoader<'_, $t> = saphyr::YamlLoader::default();
+                    loader.early_parse(false);
+                    match p.load(&mut loader, true) {
+                        Ok(()) => {
+                            let mut docs = loader.into_documents();
+                            #[allow(clippy::redundant_closure_call)]
+                            for d in &mut docs {
+                                ($resolve)(d);
+                            }
+                            let n = docs.len();
+                            std::mem::forget(docs);
+                            format!("OK {n} documents resolved")
+                        }
+                        Err(e) => format!("ERR {e}"),
+                    }
+                }};
+            }
+            if api == "lazy:Yaml" {
+                lazy!(Yaml<'_>, |d: &mut Yaml<'_>| { d.parse_representation_recursive(); })
+            } else {
+                lazy!(MarkedYamlOwned, |d: &mut MarkedYamlOwned| { d.data.parse_representation_recursive(); })
+            }
+        }
         "decode" | "decode:utf16le" => {
             // the byte-input route to the same loader: whatever stack it runs the loader on
             let bytes: Vec<u8> = if api == "decode" {
@@ -732,7 +760,7 @@ pub fn key_of(s: &Scn) -> String {
     format!("{}/{}", shape_class(&s.shape), api)
 }
 
-fn grid(cfg: &Config) -> Vec<Scn> {
+fn grid(cfg: &Config, known: &[Known]) -> Vec<Scn> {
     let thorough = cfg.tier == "thorough";
     let base: Vec<usize> = if thorough { vec![10, 100, 1000, 3000, 10_000, 100_000] } else { vec![1000, 100_000] };
     let mut r = SplitMix64::new(mix(cfg.seed, 11, 0));
@@ -763,9 +791,16 @@ fn grid(cfg: &Config) -> Vec<Scn> {
         }
         d
     };
+    // a listed finding with its own threshold gets a probe just below that threshold
+    let own_probe = |r: &mut SplitMix64, shape: &str, api: &str| -> Option<usize> {
+        let key = key_of(&Scn { shape: shape.into(), depth: 0, api: api.into() });
+        known.iter().find(|k| k.key == key && k.min_depth > 0 && k.min_depth != 3500).map(|k| k.min_depth - 1 - r.usize(k.min_depth / 8))
+    };
     for shape in TEXT_SHAPES {
         for api in TEXT_APIS {
-            for d in depths_for(&mut r) {
+            let mut ds = depths_for(&mut r);
+            ds.extend(own_probe(&mut r, shape, api));
+            for d in ds {
                 v.push(Scn { shape: shape.into(), depth: d, api: api.into() });
             }
         }
@@ -847,7 +882,7 @@ pub fn run(cfg: &Config) -> i32 {
             return 2;
         }
     };
-    let scns = Arc::new(grid(cfg));
+    let scns = Arc::new(grid(cfg, &known));
     let results: Arc<Mutex<Vec<(usize, Obs)>>> = Arc::new(Mutex::new(Vec::new()));
     let next = Arc::new(AtomicUsize::new(0));
     let mut hs = Vec::new();
